@@ -21,6 +21,7 @@ Props/C18.lean are re-checked against what the source says on every run:
         exitPassesExc      `_commit_or_rollback(exc_type, exc, tb)` receives `__exit__`'s own parameters
   _wrap_coroutine_or_generator_function.wrapped_interact
         genCounterInside / genCounterAfter    constants assigned to local.db_context_counter on entry / in `finally:`
+        suspendRefused     the test that refuses a `yield` (TransactionError), over cache.modified / cache.in_transaction
   pony/flask/__init__.py  _exit_session
         flaskExitPassesType   the first positional argument of `session.__exit__` is `type(exception)` when an exception is given
   pony/orm/integration/bottle_plugin.py  is_allowed_exception
@@ -225,6 +226,13 @@ def build(repo):
             if isinstance(st, ast.Try):
                 collect(st.body, in_finally); collect(st.finalbody, True)
     collect(wi.body, False)
+    refuse = None
+    for st in ast.walk(wi):
+        if isinstance(st, ast.If) and any(isinstance(c, ast.Constant) and isinstance(c.value, str) and 'before suspending the generator' in c.value
+                                          for c in ast.walk(st)):
+            refuse = bexpr(st.test, {'cache.modified': 'modified', 'cache.in_transaction': 'inTransaction'}, 'wrapped_interact suspension test')
+    if refuse is None: raise Untranslatable('wrapped_interact: no suspension test (TransactionError "... before suspending the generator")')
+    info['suspendRefused'] = refuse
     inside = [v for fin_, v in consts if not fin_]; afterw = [v for fin_, v in consts if fin_]
     if len(inside) != 1 or len(afterw) != 1: raise Untranslatable('wrapped_interact: expected one counter assignment on entry and one in finally')
     info.update(genCounterInside=inside[0], genCounterAfter=afterw[0])
@@ -303,6 +311,8 @@ def render(info):
          'def commitAfterBody : Bool := ' + b(info['commitAfterBody']),
          'def bareExcept : Bool := ' + b(info['bareExcept']),
          'def reraiseAfterLoop : Bool := ' + b(info['reraiseAfterLoop']), '',
+         '/-- `wrapped_interact`: when a `yield` is refused (TransactionError), over cache.modified / cache.in_transaction -/',
+         'def suspendRefused (modified inTransaction : Bool) : Bool := ' + info['suspendRefused'], '',
          '/-- `wrapped_interact`: the counter while the generator runs / after the step -/',
          'def genCounterInside : Int := %d' % info['genCounterInside'],
          'def genCounterAfter : Int := %d' % info['genCounterAfter'], '',
